@@ -213,6 +213,8 @@ def bad_value(kind):
         return (True, "penetration depth unknown")
     if kind == "truthy":
         return Truthy()
+    if kind == "array0d":
+        return Array0d(True)
     raise AssertionError(kind)
 
 
@@ -221,6 +223,23 @@ class Truthy:
 
     def __bool__(self):
         return True
+
+
+class Array0d:
+    """Looks like a zero-dimensional array holding True (item(), __bool__, __array__-free):
+    still not a bool."""
+
+    def __init__(self, v):
+        self.v = v
+
+    def item(self):
+        return self.v
+
+    def __bool__(self):
+        return bool(self.v)
+
+    def tolist(self):
+        return self.v
 
 
 class BadStrError(Exception):
